@@ -1,6 +1,7 @@
 import Qryn.Ingest.Batcher
 import Qryn.Ingest.PromDecoder
 import Qryn.Ingest.ErrorHandler
+import Qryn.Ingest.PromiseModel
 import Qryn.Base.Bytes
 /-! Line protocol for C01/C02: one *scenario* per line (the batcher is stateful, the driver is not).
 
@@ -16,6 +17,8 @@ import Qryn.Base.Bytes
 `c01classify <errval> ` errval = `u/<hex>` untyped, `m<code>/<hex>` *UnMarshalError, `q<code>/<hex>` *QrynError → `silent|status n|fault`
 `c01answer <attempts> <okStatus> <pre> <chunks>` pre = `-` or errval; chunks `-` or `;`-separated: `E:<errval>` or pushes
           `hasReq,hasSvc,<att>.<att>…|…` with att = `o` (ok) `f<hex>` (failed with this text) `p<hex>` (panicked) → `silent|status n|fault`
+`c01promise <thread,thread,…> <sched>` thread = `d<res>.<err>` (a Done call) | `g` (a Get call); sched = `seq` (every goroutine runs to
+          completion, in order) or comma-separated goroutine indices, one per statement → `ok|fault` then per Get `r/e` or `blocked`
 `c02prom <limit> <byBuffer 0/1> <points> <len,len,…>` → calls `rows/types;…` for series of the given lengths -/
 namespace Driver.C01
 open Qryn.Ingest.Batcher Qryn.Ingest
@@ -165,6 +168,33 @@ def handleEH : List String → Option String
   | _ => none
 end eh
 
+/-! ### promise.Promise -/
+section pm
+open Qryn.Ingest.PromiseModel
+
+def th? (s : String) : Option Th :=
+  if s = "g" then some (.get .wait 0 0)
+  else if s.startsWith "d" then
+    match (s.drop 1).toString.splitOn "." with
+    | [r, e] => do pure (.done (← nat? r) (← nat? e) .cas)
+    | _ => none
+  else none
+
+def showTh : Th → Option String
+  | .get .ret r e => some s!"{r}/{e}"
+  | .get _ _ _ => some "blocked"
+  | .done _ _ _ => none
+
+def handlePM : List String → Option String
+  | ["c01promise", ths, sched] => do
+    let ths ← (ths.splitOn ",").mapM th?
+    let sched ← if sched = "seq" then some ((List.range ths.length).flatMap (fun i => List.replicate 4 i))
+                else (sched.splitOn ",").mapM nat?
+    let s := Qryn.Ingest.PromiseModel.run (init ths) sched
+    pure (" ".intercalate ((if s.c.fault then "fault" else "ok") :: s.ths.filterMap showTh))
+  | _ => none
+end pm
+
 def handle : List String → Option String
   | ["c01run", k, mq, n, ops] => do
     let k ← kind? k; let mq ← nat? mq; let n ← nat? n
@@ -192,5 +222,5 @@ def handle : List String → Option String
     let series := lens.map (fun n => List.range n)
     let calls := PromDecoder.decode limit bb series points
     pure s!"{(calls.map (fun c => c.rows.length)).sum} {(calls.map (·.types)).sum} {calls.length}"
-  | ws => handleEH ws
+  | ws => (handleEH ws).orElse (fun _ => handlePM ws)
 end Driver.C01
